@@ -294,6 +294,43 @@ that does not fit a box field) is a 500 -/
 example : mediaStatus ⟨true, true, true, false, true, false, true, none, .ok, .raised .typeError, .ok, .ok 200⟩
     (.ok ()) = 500 := by decide
 
+/-- **vod_outside_range_404.** VOD, `$Number$` or `$Time$`: a request whose segment number is
+outside `[start_number, start_number + n − 1]` is answered 404 – whatever the rest of the
+world looks like behind the lookup (no fragment is loaded), provided the request got as far
+as the lookup and no error is injected. -/
+theorem vod_outside_range_404 (sd sn n : Nat) (a : Addr) (w : MediaWorld)
+    (hout : vodSegNum sd sn a < sn ∨ vodSegNum sd sn a > (n : Int) + sn - 1)
+    (hw : w.found = true ∧ w.indexed = true ∧ w.timingRef = true ∧ w.encryptedWithoutDrm = false ∧
+          w.knownContentType = true ∧ w.isInit = false ∧ w.numberOk = true ∧ w.injected = none)
+    (hl : w.lookup = vodLookup sd sn n a) :
+    mediaStatus w (.ok ()) = 404 := by
+  obtain ⟨h1, h2, h3, h4, h5, h6, h7, h8⟩ := hw
+  have hr : vodLookup sd sn n a = .refused := by
+    unfold vodLookup
+    simp only [hout, if_true]
+  unfold mediaStatus
+  simp [h1, h2, h3, h4, h5, h6, h7, h8, hl, hr, guarded]
+
+/-- **vod_in_range_index.** …and a request that passes the gate indexes an existing media
+segment: `1 ≤ mod_segment ≤ n`, so `representation.segments[mod_segment]` (the list has
+`n + 1` entries, the init segment first) cannot raise `IndexError`. -/
+theorem vod_in_range_index (sd sn n : Nat) (a : Addr) (h : vodLookup sd sn n a = .ok) :
+    1 ≤ vodModSegment sd sn a ∧ vodModSegment sd sn a ≤ n ∧
+    (sn : Int) ≤ vodSegNum sd sn a ∧ vodSegNum sd sn a ≤ (n : Int) + sn - 1 := by
+  unfold vodLookup at h
+  by_cases h1 : vodSegNum sd sn a < sn ∨ vodSegNum sd sn a > (n : Int) + sn - 1
+  · simp [h1] at h
+  · simp only [h1, if_false] at h
+    by_cases h2 : vodModSegment sd sn a < 1 ∨ vodModSegment sd sn a > n
+    · simp [h2] at h
+    · omega
+
+/-- bbb_v7 (10 segments of 960 ticks, start number 1): number 10 and time 8640 are served,
+number 11 and time 9600 – exactly one past the end – are refused, as are 0 and 12 -/
+example : vodLookup 960 1 10 (.number 10) = .ok ∧ vodLookup 960 1 10 (.time 8640) = .ok ∧
+    vodLookup 960 1 10 (.number 11) = .refused ∧ vodLookup 960 1 10 (.time 9600) = .refused ∧
+    vodLookup 960 1 10 (.number 0) = .refused ∧ vodLookup 960 1 10 (.number 12) = .refused := by decide
+
 /-- **time_status.** `/time/<method>`: 200 or 400, unconditionally -/
 theorem time_status (C : DTCodec IsoClass) (tbl : List OptionRow) (dflt : Nat → Val IsoClass)
     (q : List (Bytes × Bytes)) :
